@@ -148,3 +148,64 @@ Proof.
   - now rewrite !be_bytes_length.
   - rewrite !be_val_be_bytes. pose proof (P256_pos k). apply N.mod_mod. lia.
 Qed.
+
+(* ================================================================== *)
+(* 3. two's complement: tc_val / tc_bytes / fits / canonical length    *)
+(* ================================================================== *)
+Notation ZP k := (Z.of_N (P256 k)).
+
+(* z is representable in k bytes of two's complement *)
+Definition fits (k : nat) (z : Z) : Prop := (- ZP k <= 2 * z < ZP k)%Z.
+
+(* k is THE minimal length: z fits in k bytes and not in k-1 *)
+Definition canon_len (k : nat) (z : Z) : Prop :=
+  (1 <= k)%nat /\ fits k z /\ (k = 1%nat \/ ~ fits (k - 1) z).
+
+Lemma tc_val_cons b r :
+  tc_val (b :: r) = if b <? 128 then Z.of_N (be_val (b :: r))
+                    else (Z.of_N (be_val (b :: r)) - ZP (S (length r)))%Z.
+Proof. unfold tc_val. rewrite ZP256. reflexivity. Qed.
+
+Lemma tc_bytes_eq k z : tc_bytes k z = be_bytes k (Z.to_N (z mod ZP k)).
+Proof. unfold tc_bytes. now rewrite ZP256. Qed.
+
+Lemma tc_bytes_length k z : length (tc_bytes k z) = k.
+Proof. apply be_bytes_length. Qed.
+
+Lemma tc_bytes_ok k z : bytes_ok (tc_bytes k z) = true.
+Proof. apply be_bytes_ok. Qed.
+
+Lemma fits_mono k k' z : (k <= k')%nat -> fits k z -> fits k' z.
+Proof. unfold fits. intros Hk H. pose proof (P256_le k k' Hk). lia. Qed.
+
+Lemma fits_div k z : (1 <= k)%nat -> fits (S k) z <-> fits k (z / 256)%Z.
+Proof.
+  intros Hk. destruct k as [|j]; [lia|]. unfold fits. rewrite !P256_S.
+  pose proof (P256_pos j). lia.
+Qed.
+
+Lemma fits_1 z : fits 1 z <-> (-128 <= z < 128)%Z.
+Proof. unfold fits. rewrite P256_S, P256_0. lia. Qed.
+
+Lemma head_lt_128 v P : 0 < P -> v < 256 * P -> ((v / P) mod 256 <? 128) = (v <? 128 * P).
+Proof.
+  intros HP Hv. assert (v / P < 256) by (apply N.div_lt_upper_bound; lia).
+  rewrite N.mod_small by assumption.
+  destruct (v <? 128 * P) eqn:E.
+  - apply N.ltb_lt. apply N.div_lt_upper_bound; lia.
+  - apply N.ltb_ge. apply N.div_le_lower_bound; lia.
+Qed.
+
+Lemma tc_val_tc_bytes k z : (1 <= k)%nat -> fits k z -> tc_val (tc_bytes k z) = z.
+Proof.
+  intros Hk Hf. destruct k as [|j]; [lia|]. rewrite tc_bytes_eq.
+  set (v := Z.to_N (z mod ZP (S j))).
+  assert (Hv : v < P256 (S j)) by (pose proof (P256_pos (S j)); lia).
+  pose proof (be_val_be_bytes (S j) v) as Hbv. rewrite N.mod_small in Hbv by exact Hv.
+  rewrite be_bytes_S in *. rewrite tc_val_cons, Hbv, be_bytes_length.
+  pose proof (P256_pos j) as Hp. rewrite P256_S in Hv.
+  rewrite head_lt_128 by lia.
+  unfold fits in Hf. rewrite P256_S in *. subst v.
+  destruct (Z.ltb_spec z 0).
+  - assert (E : (z mod ZP' )%Z = z) by idtac.
+Abort.
